@@ -32,10 +32,11 @@ static P_EXECUTIONS: AtomicU64 = AtomicU64::new(0);
 static P_ROUNDS: AtomicU64 = AtomicU64::new(0);
 static P_HANDOVERS: AtomicU64 = AtomicU64::new(0);
 static P_FINISHED_BY_OTHER: AtomicU64 = AtomicU64::new(0);
-static P_ENGINE: [AtomicU64; 5] = [AtomicU64::new(0), AtomicU64::new(0), AtomicU64::new(0), AtomicU64::new(0), AtomicU64::new(0)];
+static P_ENGINE: [AtomicU64; 6] = [AtomicU64::new(0), AtomicU64::new(0), AtomicU64::new(0), AtomicU64::new(0), AtomicU64::new(0), AtomicU64::new(0)];
 static P_DECODES: AtomicU64 = AtomicU64::new(0);
+static P_CROWDS: AtomicU64 = AtomicU64::new(0);
 
-const ENGINE_NAMES: [&str; 5] = ["Naive", "NoSimd", "Ssse3", "Avx2", "DefaultEngine"];
+const ENGINE_NAMES: [&str; 6] = ["Naive", "NoSimd", "Ssse3", "Avx2", "DefaultEngine", "SlowPoly(NoSimd)"];
 
 // ======================================================================
 // Scenario
@@ -176,6 +177,34 @@ fn decode_round<E: Engine + Send + 'static, T: RateDecoder<E> + Send + 'static>(
     })
 }
 
+/// A stalled node: NoSimd whose polynomial evaluation (called in the middle of every decode) takes many
+/// scheduling steps, so that in a crowd many threads are inside `decode()` at the same time.
+struct SlowPoly(NoSimd);
+
+impl Engine for SlowPoly {
+    fn fft(&self, data: &mut reed_solomon_simd::engine::ShardsRefMut, pos: usize, size: usize, truncated_size: usize, skew_delta: usize) {
+        self.0.fft(data, pos, size, truncated_size, skew_delta);
+    }
+    fn ifft(&self, data: &mut reed_solomon_simd::engine::ShardsRefMut, pos: usize, size: usize, truncated_size: usize, skew_delta: usize) {
+        self.0.ifft(data, pos, size, truncated_size, skew_delta);
+    }
+    fn mul(&self, x: &mut [[u8; 64]], log_m: reed_solomon_simd::engine::GfElement) {
+        self.0.mul(x, log_m);
+    }
+    fn eval_poly(erasures: &mut [reed_solomon_simd::engine::GfElement; reed_solomon_simd::engine::GF_ORDER], truncated_size: usize) {
+        for _ in 0..48 {
+            shuttle::thread::sleep(std::time::Duration::ZERO);
+        }
+        NoSimd::eval_poly(erasures, truncated_size);
+    }
+}
+
+impl Mk for SlowPoly {
+    fn mk() -> Self {
+        SlowPoly(NoSimd::new())
+    }
+}
+
 trait Mk: Engine + Send + Sized + 'static {
     fn mk() -> Self;
 }
@@ -245,6 +274,7 @@ fn run_job(job: &Job, tx: &shuttle::sync::mpsc::Sender<Continuation>) {
         1 => with_layer!(NoSimd),
         2 => with_layer!(Ssse3),
         3 => with_layer!(Avx2),
+        5 => with_layer!(SlowPoly),
         _ => with_layer!(DefaultEngine),
     }
 }
@@ -318,8 +348,29 @@ fn run_rs(job: &Job, tx: &shuttle::sync::mpsc::Sender<Continuation>) {
 fn scenario() {
     P_EXECUTIONS.fetch_add(1, Ordering::Relaxed);
     let mut rng = shuttle::rand::thread_rng();
-    let n = rng.gen_range(2..=4usize);
-    let jobs: Vec<Job> = (0..n).map(|_| draw_job(&mut rng)).collect();
+    // mostly 2-4 threads; one execution in twelve is a crowd of 17-24 threads with tiny one-round jobs
+    // (state shared by the crate may be sized for "a few" concurrent users)
+    let crowd = rng.gen_range(0..12u32) == 0;
+    let n = if crowd { rng.gen_range(17..=24usize) } else { rng.gen_range(2..=4usize) };
+    let jobs: Vec<Job> = (0..n)
+        .map(|_| {
+            let mut j = draw_job(&mut rng);
+            if crowd {
+                j.rounds = 1;
+                j.b = 2;
+                // a crowd of stalled nodes: dedicated / default-rate codecs on the slow engine
+                if j.layer == 0 || j.layer == 4 {
+                    j.layer = 1 + (j.k + j.r) % 3;
+                }
+                j.engine = 5;
+                j.handover = false;
+            }
+            j
+        })
+        .collect();
+    if crowd {
+        P_CROWDS.fetch_add(1, Ordering::Relaxed);
+    }
     let (tx, rx) = shuttle::sync::mpsc::channel::<Continuation>();
     let rx = Arc::new(shuttle::sync::Mutex::new(rx));
     let mut handles = Vec::new();
@@ -516,6 +567,7 @@ fn cmd_worker(map: &BTreeMap<String, String>) -> i32 {
         .with("decode_rounds", J::u(P_DECODES.load(Ordering::Relaxed)))
         .with("handovers", J::u(P_HANDOVERS.load(Ordering::Relaxed)))
         .with("finished_by_other", J::u(P_FINISHED_BY_OTHER.load(Ordering::Relaxed)))
+        .with("crowds", J::u(P_CROWDS.load(Ordering::Relaxed)))
         .with("engines", engines);
     let code = match res {
         Ok(()) => 0,
@@ -651,7 +703,7 @@ fn cmd_check(map: &BTreeMap<String, String>) -> i32 {
         .with("scheduling_steps", J::u(sum("steps")))
         .with("runs_per_hour", J::u(if wall > 0.0 { (execs as f64 / wall * 3600.0) as u64 } else { 0 }))
         .with("faults_fired", J::obj().with("F12.context_switches", J::u(sum("context_switches"))).with("F12.preemptions", J::u(sum("preemptions"))).with("object_handed_over_mid_round", J::u(sum("handovers"))))
-        .with("probes", J::obj().with("encode_rounds", J::u(sum("encode_rounds"))).with("decode_rounds", J::u(sum("decode_rounds"))).with("round_finished_by_a_different_thread", J::u(sum("finished_by_other"))).with("threads_per_engine", engines))
+        .with("probes", J::obj().with("encode_rounds", J::u(sum("encode_rounds"))).with("decode_rounds", J::u(sum("decode_rounds"))).with("round_finished_by_a_different_thread", J::u(sum("finished_by_other"))).with("executions_with_17_to_24_threads", J::u(sum("crowds"))).with("threads_per_engine", engines))
         .with("components", J::obj().with("real", J::Arr(vec![J::s("all codecs, engines and table initialisers of /repo, built through the shadow manifest with --cfg verif_shuttle")])).with("stub", J::Arr(vec![J::s("std::sync::LazyLock replaced by a shim over shuttle::lazy_static::Lazy (hook H4); threads / mpsc / Mutex of the scenario are shuttle's")])))
         .with("exhaustive", J::Bool(false));
     let evidence = J::obj()
